@@ -247,6 +247,16 @@ theorem ensureEqualDims_iff (s0 : Shape) (rest : List Shape) :
   · intro hall s hs
     rw [hall s hs]; exact ⟨Nat.le_refl _, List.take_length⟩
 
+/-- Calls with several arrays (`ensure_1d_with_singleton([a, b], …)`): accepted exactly when
+    every array is, with the normalised shapes returned in order; rejected as soon as one array
+    is — for both validating normalisers. -/
+theorem ensureAll_iff (ss ts : List Shape) :
+    (ensure1dAll ss = .ok ts ↔ ts.length = ss.length ∧ ∀ p ∈ ss.zip ts, ensure1d p.1 = .ok p.2) ∧
+    ((∃ e, ensure1dAll ss = .error e) ↔ ∃ s ∈ ss, ∃ e, ensure1d s = .error e) ∧
+    (ensureVectorAll ss = .ok ts ↔ ts.length = ss.length ∧ ∀ p ∈ ss.zip ts, ensureVector p.1 = .ok p.2) ∧
+    ((∃ e, ensureVectorAll ss = .error e) ↔ ∃ s ∈ ss, ∃ e, ensureVector s = .error e) :=
+  ⟨allOk_ok_iff _ _ _, allOk_error_iff _ _, allOk_ok_iff _ _ _, allOk_error_iff _ _⟩
+
 /-- No normaliser drops or duplicates data: the number of elements is preserved. -/
 theorem ensure_preserves_size (s t : Shape) :
     (ensure1d s = .ok t → numel t = numel s) ∧ (ensureVector s = .ok t → numel t = numel s) ∧
@@ -284,6 +294,8 @@ example : ensure1d [7, 2] = .error .valueError := (ensure1d_layout_insensitive 7
 example : ensure1d [1, 7] = .error .valueError := (ensure1d_layout_insensitive 1 0).2.1 7 (by decide)
 example : ensureVector [7, 1] = .ok [7] := rfl
 example : ensureVector [7, 1, 3] = .error .valueError := rfl
+example : ensure1dAll [[7], [7, 1, 1]] = .ok [[7, 1], [7, 1]] := rfl
+example : ensure1dAll [[7], [7, 2]] = .error .valueError := rfl
 example : ensureEqualDims [[7, 2], [7, 2, 3]] none = .ok () := rfl
 example : ensureEqualDims [[7, 1], [6, 1]] (some 0) = .error .valueError := rfl
 example : ensureEqualDims [[7], [7, 2], []] (some 0) = .error .indexError := rfl
